@@ -632,3 +632,5 @@ func must[T any](v T, err error) T {
 	}
 	return v
 }
+
+type pluginInfo = plugin.AutomationReportInfo
